@@ -42,6 +42,10 @@ def run(ctx: Ctx) -> None:
     shutdown(ctx)
     unchanged(ctx)
     maintenance(ctx, "R-C03-MAINT")
+    from .C10 import gate
+
+    with ctx.as_rule("R-C03-UNCHANGED"):
+        gate(ctx)  # the message held when the limit stops the loop is rejected (given back) and its permit released
     from .runner import pause_lock_protocol, pause_rule, rabbit_pause_flag
 
     with ctx.as_rule("R-C03-SHUTDOWN"):
